@@ -4,18 +4,19 @@
    map block coordinate -> block bytes. *)
 From DV Require Import Base.Prelude Base.WrapZ Model.Geometry Model.ROI Model.ImageBlk
   Proofs.Geometry Proofs.ROI Proofs.ImageBlk Proofs.ImageBlkStore.
+From Coq Require Sorting.Sorted.
 Local Open Scope Z_scope.
 
 (* Vocabulary.
    cfg_ok c      block dimensions 1..1024, 1..8 bytes per voxel (8/16/32/64-bit, float32, rgba8).
    geom_ok g     offset coordinates of magnitude <= 2^29, extents 1..2^20: XY, XZ, YZ slice or 3d box.
-   wq_ok c w     w is a block-aligned 3d write (any, also negative, block coordinates) with the
-                 right number of bytes.
+   wop_ok c w    w is a block-aligned 3d write (any, also negative, block coordinates; optional
+                 ROI of sorted spans) or a block stream, with the right number of bytes.
    pos c g s p ch   position in the request buffer of byte ch of voxel p (p absolute), row stride s.
    last_write c ws p ch   byte ch of voxel p in the last write of the chronological list ws that
                  covers p, if any.
-   init_byte fill c   what NewVoxels puts in the buffer: the background byte once it is preset
-                 (fill = true, repo_patches/C17-1-fix.diff), 0 in the code as it stood. *)
+   bg_at c ch    byte ch of the background voxel (bgfix c: the voxel whose every value is
+                 Background, repo_patches/C17-4-fix.diff; else the code as it stood). *)
 
 (* One block against one geometry, both directions (readBlock / writeBlock), for all four shapes
    and any row stride >= width: exactly the voxels of the geometry that lie in the block move,
@@ -29,43 +30,67 @@ Proof. exact block_xfer. Qed.
 Print Assumptions C17_block_transfer.
 
 (* The blocks visited for a geometry (IndexZYXIterator, whose Valid() compares key bytes: C18) are
-   exactly the blocks that contain a voxel of it. *)
+   exactly the blocks that contain a voxel of it, in (z, y, x) order. *)
 Theorem C17_block_iteration : forall c g, cfg_ok c -> geom_ok g ->
-  exists bl, geom_blocks c g = Ok bl /\ forall b, In b bl <-> meets g (bsz c) b.
+  exists bl, geom_blocks c g = Ok bl /\ (forall b, In b bl <-> meets g (bsz c) b)
+    /\ Sorted.StronglySorted pt_zyx_le bl.
 Proof. exact geom_blocks_spec. Qed.
 Print Assumptions C17_block_iteration.
 
-(* read_after_writes: for EVERY sequence of block-aligned writes and EVERY read geometry (3d box
-   of any alignment, XY / XZ / YZ slice, crossing block borders, partly or wholly outside the
-   written area), the read succeeds and byte ch of every voxel p of the geometry is the byte of
-   the last write covering p, else the background. *)
-Theorem C17_read_after_writes : forall c ws g, cfg_ok c -> Forall (wq_ok c) ws -> geom_ok g ->
+(* read_after_writes: for EVERY sequence of writes -- block-aligned raw writes, with or without an
+   ROI, and block streams, at any (negative) block coordinates, in any order -- and EVERY read
+   geometry (3d box of any alignment, XY / XZ / YZ slice, crossing block borders, partly or wholly
+   outside the written area), the read succeeds and byte ch of every voxel p of the geometry is the
+   byte of the last write that set p, else the background voxel's byte. *)
+Theorem C17_read_after_writes : forall c ws g, cfg_ok c -> Forall (wop_ok c) ws -> geom_ok g ->
   exists s buf, apply_writes c st0 ws = Ok s /\ get_raw true c s g None = Ok buf
     /\ zlen buf = bpv c * g_numvoxels g
     /\ forall p ch, in_geom g p -> 0 <= ch < bpv c ->
          nthZ buf (pos c g (gw g * bpv c) p ch)
-         = match last_write c ws p ch with Some v => v | None => bg_byte c end.
-Proof. exact (read_after_writes_l true). Qed.
+         = match last_write c ws p ch with Some v => v | None => bg_at c ch end.
+Proof. exact read_after_writes_plain. Qed.
 Print Assumptions C17_read_after_writes.
 
-(* the same for the code before C17-1, with 0 in place of the background ... *)
-Theorem C17_read_after_writes_partial : forall c ws g, cfg_ok c -> Forall (wq_ok c) ws -> geom_ok g ->
-  exists s buf, apply_writes c st0 ws = Ok s /\ get_raw false c s g None = Ok buf
+(* ... and read through an ROI (sorted well-formed spans, as the store returns them), with or
+   without attenuation: inside the ROI as above; outside it the background, or with ?attenuation=n
+   the stored byte shifted right by n (one-byte voxels; repaired readScaledBlock, C17-5).
+   ROI completeness is part of this: a voxel whose block IS in the ROI of the write that covers it
+   last was written (last_write) and is read back. *)
+Theorem C17_read_after_writes_roi : forall c ws g roi att,
+  cfg_ok c -> Forall (wop_ok c) ws -> geom_ok g -> roi_wf roi ->
+  exists s buf, apply_writes c st0 ws = Ok s /\ get_raw_att true c s g roi att = Ok buf
     /\ zlen buf = bpv c * g_numvoxels g
     /\ forall p ch, in_geom g p -> 0 <= ch < bpv c ->
-         nthZ buf (pos c g (gw g * bpv c) p ch)
-         = match last_write c ws p ch with Some v => v | None => 0%N end.
-Proof. exact (read_after_writes_l false). Qed.
-(* ... which is not the background when Background <> 0 *)
+         nthZ buf (pos c g (gw g * bpv c) p ch) = shown c roi att (last_write c ws p ch) (block_of (bsz c) p) ch.
+Proof. exact read_after_writes_l. Qed.
+Print Assumptions C17_read_after_writes_roi.
+
+(* the ROI sweep (InsideFast over the visited blocks) flags exactly the blocks of the span set *)
+Theorem C17_roi_sweep_complete : forall spans bl,
+  Forall span_wf spans -> spans_sorted spans -> Sorted.StronglySorted pt_zyx_le bl ->
+  roi_flags (Some spans) bl = map (fun b => (b, in_spans b spans)) bl.
+Proof. exact roi_flags_ok. Qed.
+Print Assumptions C17_roi_sweep_complete.
+
+(* the background is the voxel whose every value is Background once C17-4 is in (bgfix) ... *)
+Theorem C17_background_voxel : forall c ch, bgfix c = true -> bg_at c ch = nth (Z.to_nat ch) (bgpat c) 0%N.
+Proof. exact bg_at_fixed. Qed.
+(* ... before it, voxels wider than one byte had none: raw reads gave 0, GET blocks 0x0707 *)
+Theorem C17_wide_background_refuted :
+  exists c g p, cfg_ok c /\ bgfix c = false /\ geom_ok g /\ in_geom g p /\
+    (exists buf, get_raw true c st0 g None = Ok buf
+       /\ nthZ buf (pos c g (gw g * bpv c) p 0) <> nth 0 (bgpat c) 0%N)
+    /\ get_blocks c st0 (0, 0, 0) 1 <> concat (repeat (bgpat c) (Z.to_nat (block_voxels c))).
+Proof. exact wide_background_refuted. Qed.
+(* and before C17-1 the response buffer was zeroed *)
 Theorem C17_unwritten_background_refuted :
-  exists c ws g p, cfg_ok c /\ Forall (wq_ok c) ws /\ geom_ok g /\ in_geom g p /\ last_write c ws p 0 = None /\
-    exists s buf, apply_writes c st0 ws = Ok s /\ get_raw false c s g None = Ok buf
-      /\ nthZ buf (pos c g (gw g * bpv c) p 0) <> bg_byte c.
+  exists c g p, cfg_ok c /\ geom_ok g /\ in_geom g p /\
+    exists buf, get_raw false c st0 g None = Ok buf /\ nthZ buf (pos c g (gw g * bpv c) p 0) <> bg_at c 0.
 Proof. exact nofill_refuted. Qed.
 
-(* extents_cover: the advertised extents contain every written box *)
-Theorem C17_extents_cover : forall c ws s, cfg_ok c -> Forall (wq_ok c) ws -> apply_writes c st0 ws = Ok s ->
-  forall w, In w ws -> covers (ext s) (wq_off w) (gend (wq_geom w)).
+(* extents_cover: the advertised extents contain the box of every write (raw volume or block stream) *)
+Theorem C17_extents_cover : forall c ws s, cfg_ok c -> Forall (wop_ok c) ws -> apply_writes c st0 ws = Ok s ->
+  forall w, In w ws -> covers (ext s) (fst (op_box c w)) (snd (op_box c w)).
 Proof. exact extents_cover_l. Qed.
 Print Assumptions C17_extents_cover.
 
@@ -97,22 +122,34 @@ Theorem C17_post_blocks_extents_refuted :
     /\ post_blocks false c st0 start span data = Ok s /\ ext s = None.
 Proof. exact post_blocks_orig_extents_refuted. Qed.
 
-(* ---- non-vacuity: a history with negative block coordinates, an overwrite, and reads in all
-   four shapes crossing block borders and leaving the written area ---- *)
+(* ---- non-vacuity: a history with negative block coordinates, an overwrite, an ROI-restricted
+   write, a block stream, and reads in all four shapes crossing block borders and leaving the
+   written area, with and without ROI / attenuation ---- *)
 Example C17_ex :
-  let c := C (4, 2, 2) 2 0 in
-  let w1 := WR (-4, 0, -2) (8, 2, 2) (map N.of_nat (seq 1 64)) in
-  let w2 := WR (0, 0, -2) (4, 4, 2) (map N.of_nat (seq 101 64)) in
-  cfg_ok c /\ Forall (wq_ok c) [w1; w2]
-  /\ (exists s, apply_writes c st0 [w1; w2] = Ok s
-      /\ get_raw true c s (G XY (-2, 1, -1) 4 2 1) None = Ok [53;54; 55;56; 141;142; 143;144;  0;0; 0;0; 149;150; 151;152]%N
-      /\ get_raw true c s (G YZ (1, 1, -3) 3 2 1) None = Ok [0;0; 0;0; 0;0;  111;112; 119;120; 127;128]%N
-      /\ get_raw true c s (G XZ (3, 3, -2) 2 3 1) None = Ok [131;132; 0;0;  163;164; 0;0;  0;0; 0;0]%N
-      /\ get_raw true c s (G Vol3d (-1, 1, -1) 3 2 2) None
-         = Ok [55;56; 141;142; 143;144;  0;0; 149;150; 151;152;  0;0; 0;0; 0;0;  0;0; 0;0; 0;0]%N
-      /\ ext s = Some ((-4, 0, -2), (3, 3, -1))).
+  let c := C (4, 2, 2) 1 9 [9%N] true in
+  let roi := Some [SP (-1) 0 (-1) (-1); SP (-1) 0 1 1] in
+  let w1 := WRaw (-4, 0, -2) (8, 2, 2) (map N.of_nat (seq 1 32)) None in
+  let w2 := WRaw (-4, 0, -2) (12, 2, 2) (map N.of_nat (seq 101 48)) roi in
+  let w3 := WBlk (2, 1, 0) 1 (map N.of_nat (seq 201 16)) in
+  cfg_ok c /\ Forall (wop_ok c) [w1; w2; w3] /\ roi_wf roi
+  /\ (exists s, apply_writes c st0 [w1; w2; w3] = Ok s
+      /\ get_raw true c s (G XY (-2, 1, -1) 9 1 1) None = Ok [139;140; 29;30;31;32; 145;146;147]%N
+      /\ get_raw_att true c s (G XY (-2, 1, -1) 9 1 1) roi 1 = Ok [139;140; 14;15;15;16; 145;146;147]%N
+      /\ get_raw_att true c s (G XY (-2, 1, -1) 9 1 1) roi 0 = Ok [139;140; 9;9;9;9; 145;146;147]%N
+      /\ get_raw true c s (G YZ (9, 1, -1) 3 2 1) None = Ok [9;9;9; 9;202;206]%N
+      /\ ext s = Some ((-4, 0, -2), (11, 3, 1))).
 Proof.
   cbv zeta. split; [unfold cfg_ok, px, py, pz; cbn; lia|].
-  split; [repeat constructor; unfold geom_ok, px, py, pz; cbn; lia|].
+  assert (R : roi_wf (Some [SP (-1) 0 (-1) (-1); SP (-1) 0 1 1])).
+  { split.
+    - constructor; [unfold span_wf; cbn; lia|]. constructor; [unfold span_wf; cbn; lia|constructor].
+    - constructor; [constructor; [constructor|constructor]|].
+      constructor; [unfold span_start_le; cbn; lia|constructor]. }
+  split.
+  { constructor; [cbn [wop_ok roi_wf]; repeat split; unfold geom_ok, raw_geom, px, py, pz; cbn; lia|].
+    constructor; [cbn [wop_ok]; split; [unfold geom_ok, raw_geom, px, py, pz; cbn; lia|];
+                  split; [vm_compute; reflexivity|]; split; [vm_compute; reflexivity|exact R]|].
+    constructor; [cbn [wop_ok]; unfold px, py, pz; cbn; lia|constructor]. }
+  split; [exact R|].
   eexists. split; [vm_compute; reflexivity|]. repeat split; vm_compute; reflexivity.
 Qed.
